@@ -14,7 +14,7 @@ import (
 func failBackSites(r *an.Run) {
 	p := r.Prog
 	r.Obl("fail-back-sites-depend-only-on-their-action-set", "GUARD",
-		"in ChannelArbitrator.stateStep every abandonForwards call is given the index set of one chain action (chainActions[HtlcFailDustAction] in StateDefault, the dangling set in StateContractClosed, …) and is dominated by no other condition than the emptiness test of that set, the stage of the step, earlier error tests and the no-actions early exit",
+		"in ChannelArbitrator.stateStep every abandonForwards call is given the index set of chain actions, and the calls made once a commitment confirmed (StateContractClosed: the dangling and dust sets, or every offered HTLC of the remote commitments on a breach) are dominated by no other condition than the emptiness test of that set, the stage of the step, the breach test and earlier error tests; the early pass of StateDefault may be narrower, what it leaves out is failed back after confirmation",
 		"an extra condition (which commitment confirmed, the trigger) leaves offered dust or dangling HTLCs of exactly those closes without their upstream fail: the incoming HTLC stays locked until it times out on chain", 2,
 		func(o *an.Obl) {
 			f := p.Func("contractcourt.ChannelArbitrator.stateStep")
@@ -38,6 +38,19 @@ func failBackSites(r *an.Run) {
 				o.Site("%s set=%s guards=%v", s.String(), a[0], f.GuardsAt(s))
 				if !strings.Contains(a[0], "HtlcIndex") && !strings.Contains(a[0], "NewSet") && !strings.Contains(a[0], "Set[") {
 					o.FailAt(f.ID+"#fail-back-set", s.Where(), "abandonForwards is given %s, expected the index set of a chain action", a[0])
+				}
+				// Since b3aa835 the StateDefault pass is an early fail-back
+				// only: whatever it leaves out is failed back once a
+				// commitment confirmed (confirmed-commitment-dust-is-failed-
+				// back-once), so an extra condition there loses nothing.
+				early := false
+				for _, g := range f.GuardsAt(s) {
+					if g == "c.state == StateDefault" {
+						early = true
+					}
+				}
+				if early {
+					continue
 				}
 				for _, g := range f.GuardsAt(s) {
 					ok := false
